@@ -35,6 +35,12 @@
 //! descending `f`); user `def`s never recurse. `cfg.exclude` removes builtins/constructs by feature
 //! name (e.g. "b:splits", "assign", "reduce", "def", "label", "interp", "format", "slice").
 //!
+//! Hostile families are also callable one by one (C30 runs each as its own sub-check):
+//! `snippet_program` (HOSTILE_SNIPPETS composed with generated pieces), `deep_program`,
+//! `soup_program`, `mutant_program(u, seeds)`, `text_hostile`. `cfg.favor` lists builtin names that
+//! get one third of all builtin picks (C23: the ones the generic evaluator implements natively).
+//! `extreme_in_text` / `huge_number_in_text` classify raw program text.
+//!
 //! Other helpers: `print(&E)`, `jq_string_literal(&str)`, `E::features()`, `E::count()`,
 //! `shrink_candidates(&E)` (one-step AST reductions for in-check delta debugging),
 //! `TOKENS` (the token alphabet of the soups), `builtin_names(max_tier)`.
@@ -1234,6 +1240,7 @@ const STRFTIME: &[&str] = &["%Y-%m-%dT%H:%M:%SZ", "%Y", "%A, %B %d, %Y", "%j", "
 struct Gen<'a, 'b> {
     u: &'a mut Src<'b>,
     cfg: &'a Cfg,
+    #[allow(dead_code)]
     doc: &'a J,
     vars: Vec<(String, J)>,
     /// user functions in scope: (name, number of filter params)
